@@ -562,6 +562,8 @@ impl PeerHandler {
             }
             UnchokeCmd::SendRequest(req_data) => self.new_piece_request(false, &req_data).await?,
             UnchokeCmd::SendNotInterested => {
+                // Nothing is assigned any more, so blocks requested before Choke are not awaited
+                self.piece_rx = None;
                 self.connection.send_msg(&NotInterested::new()).await?
             }
             UnchokeCmd::Ignore => (),
